@@ -127,6 +127,8 @@ fn abstract_ev(e: &Ev) -> Option<String> {
         Ev::GateExit { gate, outcome } => format!("gx{gate}{}", outcome.brief()),
         Ev::GateDropped { gate } => format!("gd{gate}"),
         Ev::PayloadPiece { gate, .. } => format!("pp{gate}"),
+        Ev::PayloadWait { .. } => return None,
+        Ev::Session { conn } => format!("ss{conn}"),
         Ev::PayloadEnd { gate, err, .. } => format!("pe{gate}{}", err.is_some()),
         Ev::Control { conn, wr, stop } => format!("ct{conn}{wr:?}{}", stop.as_ref().map_or(String::new(), |s| format!("{s:?}"))),
         Ev::OpStart { sender, op, .. } => format!("os{sender}.{op}"),
